@@ -381,6 +381,10 @@ def ord3_link(prefixes):
 
 # a link that rewrites an attribute another link selects by (selection is by the attributes of the block, whatever links did before)
 EXTRA_LINKS = {
+    # removes the only atom of a residue B that follows any residue: B is left without atoms, its residue-graph edges cannot be
+    # realised and have to be reported
+    "rm_all": dict(resname=None, atoms={"BB": {}, "+BB": {"resname": "B", "replace": {"atomname": None}}},
+                   inter={}, edges=[("BB", "+BB", {})]),
     "repl_type": dict(resname=["A", "B", "C", "D"], atoms={"+BB": {"replace": {"atype": "ZZ"}}},
                       inter={"bonds": [I(["BB", "+BB"], ["1", "0.48", "480"])]}),
     # two untagged terms on the same atoms in a .ff link (the later one counts) - must not depend on other files being read
